@@ -436,11 +436,10 @@ class Project(MessageHandler):
                     propagate_end_to_children(child, effective_end)
 
         # Start from root tasks (no parent)
+        # (descend from every root: a dated container may be nested inside undated ones)
         for task in self.tasks:
-            if task.parent is None:
-                task_end = task.get("end", scIdx)
-                if task_end:
-                    propagate_end_to_children(task, task_end)
+            if task.parent is None and not task.leaf():
+                propagate_end_to_children(task, None)
 
     def finishScenario(self, scIdx: int) -> None:
         for task in self.tasks:
